@@ -127,6 +127,46 @@ def model_check_engine(maxtx, scheds, timeout=3000):
     return res, runs
 
 
+def prove_pairing(timeout=900):
+    """Apalache on spec/Ind_Pairing.tla: the pairing loop's two running amounts over UNBOUNDED integers.  Four obligations: Init => IndInv,
+    IndInv and Next => IndInv', IndInv => Safety (what C02 says about the loop), and the sensitivity control (the loop whose third branch does
+    not reduce the event must break IndInv).  Returns the outcomes; a failed obligation is a machinery failure (the specification is wrong)."""
+    import shutil
+    import subprocess
+    from concurrent.futures import ThreadPoolExecutor
+    exe = shutil.which("apalache-mc")
+    if exe is None:
+        return {"module": "Ind_Pairing", "skipped": "apalache-mc is not on PATH"}
+    obligations = [("init_implies_inv", ["--init=Init", "--next=Next", "--inv=IndInv", "--length=0"], True),
+                   ("inv_is_inductive", ["--init=IndInit", "--next=Next", "--inv=IndInv", "--length=1"], True),
+                   ("inv_implies_safety", ["--init=IndInit", "--next=Next", "--inv=Safety", "--length=0"], True),
+                   ("broken_loop_refuted", ["--init=IndInit", "--next=NextBroken", "--inv=IndInv", "--length=1"], False)]
+
+    def one(ob):
+        name, args, want_ok = ob
+        out_dir = os.path.join(common.scratch(), f"apa_{os.getpid()}_{name}")
+        try:
+            p = subprocess.run([exe, "check"] + args + [f"--out-dir={out_dir}", os.path.join(common.SPEC, "Ind_Pairing.tla")],
+                               cwd=common.scratch(), capture_output=True, text=True, timeout=timeout, check=False)
+        except subprocess.TimeoutExpired as exc:
+            raise common.MachineryError(f"Apalache timed out on Ind_Pairing {name}") from exc
+        finally:
+            subprocess.run(["rm", "-rf", out_dir], check=False)
+        text = p.stdout + p.stderr
+        ok = "The outcome is: NoError" in text
+        bad = "The outcome is: Error" in text
+        if not (ok or bad):
+            raise common.MachineryError(f"Apalache failed on Ind_Pairing {name}:\n" + text[-1500:])
+        return name, ok == want_ok
+
+    with ThreadPoolExecutor(4) as ex:
+        res = dict(ex.map(one, obligations))
+    failed = [n for n, good in res.items() if not good]
+    if failed:
+        raise common.MachineryError(f"Ind_Pairing: obligations not discharged as expected: {failed}")
+    return {"module": "Ind_Pairing", "tool": "apalache-mc", "amounts": "unbounded integers", "events": 3, "lots": 3, "obligations": res}
+
+
 # instants 1 and 2: noon of 30 and 31 December 2019 (UTC); instant 3: 2020-01-01T00:00:01Z, written in UTC (local year 2020, yr = 2) or at
 # -05:00 (2019-12-31T19:00:01-05:00, local year 2019, yr = 1)
 _ENG_T = {1: 363 * 86400 + 43200, 2: 364 * 86400 + 43200, 3: 365 * 86400 + 1}
